@@ -112,6 +112,31 @@ def _gen(items):
     yield from items
 
 
+def _hashables(items, env):
+    """Totality: unhashable members (possible after mutations) are dropped deterministically."""
+    out = []
+    for x in items:
+        o = build(x, env)
+        try:
+            hash(o)
+        except TypeError:
+            continue
+        out.append(o)
+    return out
+
+
+def _pairs(items, env):
+    out = []
+    for k, x in items:
+        ko = build(k, env)
+        try:
+            hash(ko)
+        except TypeError:
+            ko = repr(ko)
+        out.append((ko, build(x, env)))
+    return out
+
+
 def build(v, env: Env | None = None):  # noqa: C901, PLR0911, PLR0912
     if v is None or isinstance(v, (bool, int, float, str)):
         return v
@@ -121,15 +146,15 @@ def build(v, env: Env | None = None):  # noqa: C901, PLR0911, PLR0912
     if tag == "t":
         return tuple(build(x, env) for x in v["v"])
     if tag == "d":
-        return {build(k, env): build(x, env) for k, x in v["v"]}
+        return dict(_pairs(v["v"], env))
     if tag == "set":
-        return {build(x, env) for x in v["v"]}
+        return set(_hashables(v["v"], env))
     if tag == "fset":
-        return frozenset(build(x, env) for x in v["v"])
+        return frozenset(_hashables(v["v"], env))
     if tag == "deque":
         return collections.deque(build(x, env) for x in v["v"])
     if tag == "dd":
-        return collections.defaultdict(None, {build(k, env): build(x, env) for k, x in v["v"]})
+        return collections.defaultdict(None, _pairs(v["v"], env))
     if tag == "bytes":
         return bytes.fromhex(v["h"])
     if tag == "bytearray":
@@ -174,7 +199,7 @@ def build(v, env: Env | None = None):  # noqa: C901, PLR0911, PLR0912
     if tag == "nolen":
         return NoLenIterable([build(x, env) for x in v["v"]])
     if tag == "custmap":
-        return CustomMapping([(build(k, env), build(x, env)) for k, x in v["v"]])
+        return CustomMapping(_pairs(v["v"], env))
     if tag == "itemsonly":
         return ItemsOnly([(build(k, env), build(x, env)) for k, x in v["v"]])
     if tag == "strsub":
@@ -184,7 +209,7 @@ def build(v, env: Env | None = None):  # noqa: C901, PLR0911, PLR0912
     if tag == "listsub":
         return ListSub([build(x, env) for x in v["v"]])
     if tag == "dictsub":
-        return DictSub({build(k, env): build(x, env) for k, x in v["v"]})
+        return DictSub(_pairs(v["v"], env))
     if tag == "opaque":
         return Opaque()
     if tag == "range":
